@@ -74,24 +74,39 @@ func c10xProperty(t *rapid.T, st *Stats) {
 	vfs.Reset(root0, false)
 	h0 := olareg.New(conf(root0))
 	for _, s := range steps {
+		if s.run == nil {
+			_ = h0.Close()
+			h0 = olareg.New(conf(root0))
+			continue
+		}
 		_ = s.run(h0)
 	}
-	total := vfs.MutCount()
+	total, totalReads := vfs.MutCount(), vfs.ReadCount()
 	_ = h0.Close()
 	if total == 0 {
 		st.Case([]string{"history without mutating call"}, false)
 		return
 	}
-	k := rapid.IntRange(1, total).Draw(t, "faultAt")
+	// the fault: a mutating call (write side) or a reading call (open, stat, readfile, readdir) of the history
+	readFault := totalReads > 0 && rapid.IntRange(0, 2).Draw(t, "readFault") == 0
+	limit := total
+	if readFault {
+		limit = totalReads
+	}
+	k := rapid.IntRange(1, limit).Draw(t, "faultAt")
 	k2 := 0
-	if rapid.IntRange(0, 3).Draw(t, "secondFault") == 0 {
+	if !readFault && rapid.IntRange(0, 3).Draw(t, "secondFault") == 0 {
 		k2 = k + rapid.IntRange(1, 12).Draw(t, "secondFaultAfter")
 	}
 	root := tmp + "/fault"
 	vfs.Reset(root, true)
-	vfs.FailAt(k)
+	if readFault {
+		vfs.FailReadAt(k)
+	} else {
+		vfs.FailAt(k)
+	}
 	h := olareg.New(conf(root))
-	trace = append(trace, fmt.Sprintf("%d mutating file-system calls without fault; fault at call %d (second at %d)", total, k, k2))
+	trace = append(trace, fmt.Sprintf("%d mutating and %d reading file-system calls without fault; fault at %s call %d (second at %d)", total, totalReads, map[bool]string{true: "reading", false: "mutating"}[readFault], k, k2))
 	faultStep, faultOp := -1, ""
 	hasIndexPut := false
 	for i, s := range steps {
@@ -99,14 +114,23 @@ func c10xProperty(t *rapid.T, st *Stats) {
 		if strings.HasPrefix(s.name, "indexPut") {
 			hasIndexPut = true
 		}
-		before := vfs.MutCount()
+		before := c12fCount(readFault)
 		res := ""
+		if s.run == nil {
+			if !withWatchdog(30*time.Second, func() { _ = h.Close() }) {
+				st.Case(trace, false, "abandoned-stuck-close")
+				return
+			}
+			h = olareg.New(conf(root))
+			trace = append(trace, "restart")
+			continue
+		}
 		if !withWatchdog(30*time.Second, func() { res = s.run(h) }) {
 			vfs.Kill(root)
 			st.Case(trace, false, "abandoned-stuck-request") // C12's business
 			return
 		}
-		after := vfs.MutCount()
+		after := c12fCount(readFault)
 		if faultStep < 0 && before < k && after >= k {
 			faultStep = i
 			for _, op := range vfs.Log() {
